@@ -2,6 +2,7 @@ package c20
 
 import (
 	"context"
+	"errors"
 	"fmt"
 	"sort"
 	"strconv"
@@ -91,6 +92,14 @@ type lateOp struct {
 }
 
 func (o lateOp) String() string { return o.Name + "(" + o.Detail + ")" }
+
+// workflowModifier: a call of the Workflow API that declares something (a node, an input, a dependency, a
+// static value, a branch, an END input). None of them returns an error: on a compiled Workflow - compiled by
+// its own Compile or as a node of the scenario's graph - the attempt must be reported by the next Compile,
+// with ErrGraphCompiled.
+func (o lateOp) workflowModifier() bool {
+	return strings.HasPrefix(o.Name, "WorkflowNode.") || strings.Contains(o.Name, "Workflow.Add")
+}
 
 // variant is a set of compile options; class groups variants with the same run-time semantics.
 type variant struct {
@@ -1126,6 +1135,17 @@ func (c *checker) checkLate(s lateSeq) {
 	case "recompiled-differs":
 		sig = "C20/recompiled-runnable-differs/" + sc.fe
 		what = "Compile of an untouched, already compiled builder with run-time equivalent options gives a runnable that behaves differently from the first one"
+	case "late-not-reported":
+		// the same signatures as in the call-sequence workload: what was declared on the compiled Workflow
+		kind := "declaration"
+		switch {
+		case strings.Contains(res.name, "AddBranch"):
+			kind = "AddBranch"
+		case strings.Contains(res.name, "Node") && strings.Contains(res.name, "Workflow.Add"):
+			kind = "Add-Node"
+		}
+		sig = "C20/compiled/workflow/compile-accepted-after-late-" + kind
+		what = "a declaration on a compiled Workflow (a call without error result; the Workflow was compiled by its own Compile or as a node) was not reported by the next Compile: every attempt to modify a compiled graph must be refused with an error"
 	case "recompile-fails":
 		sig = "C20/compile-not-repeatable/" + sc.fe + "/" + strings.ReplaceAll(res.name, " ", "-") + "-of-untouched-builder-fails"
 		what = "after a successful Compile and nothing but further Compile calls (of the builder itself, of the builders that are its nodes), Compile returned an error"
@@ -1186,8 +1206,9 @@ func (c *checker) runLate(s lateSeq, count bool) (*lateResult, *lateWitnessX) {
 	}
 	callerArg := false
 	mutated := false
-	touched := false   // something else than Compile calls (of the top-level builder or of a nested one) happened
-	var views []string // ... except writing to a kept *GraphInfo: these operations were applied
+	var wfMods []string // calls of the Workflow API that declared something on a compiled Workflow
+	touched := false    // something else than Compile calls (of the top-level builder or of a nested one) happened
+	var views []string  // ... except writing to a kept *GraphInfo: these operations were applied
 	for pos, i := range s.idx {
 		op := b.lates[i]
 		var r2 runFn
@@ -1214,6 +1235,34 @@ func (c *checker) runLate(s lateSeq, count bool) (*lateResult, *lateWitnessX) {
 		if ch, why := im.changed(c); ch {
 			w.name = op.Name
 			return &lateResult{class: "changed", at: pos, name: op.Name, detail: why, recompile: op.compile != ""}, w
+		}
+		// a declaration on a compiled Workflow can only be reported by the next Compile (of the Workflow, or of
+		// the graph it is a node of): it must be, and with ErrGraphCompiled
+		if op.workflowModifier() {
+			wfMods = append(wfMods, op.Name)
+		} else if op.compile != "" && len(wfMods) > 0 {
+			if count {
+				rep.Count("late_workflow_declarations_followed_by_compile", 1)
+			}
+			switch {
+			case e == nil:
+				// named after the kind of declaration that is known to go unreported, if one is among them (a
+				// late Add*Node on an existing key also replaces the handle and with it what was queued on it)
+				name := wfMods[0]
+				for _, m := range wfMods {
+					if strings.Contains(m, "Workflow.Add") && strings.Contains(m, "Node") {
+						name = m
+						break
+					}
+				}
+				w.name = name
+				return &lateResult{class: "late-not-reported", at: pos, name: name,
+					detail: fmt.Sprintf("%s returned nil after %s on a compiled Workflow", op, strings.Join(wfMods, ", "))}, w
+			case errors.Is(e, compose.ErrGraphCompiled) && count:
+				// (not demanded: an error is; a late AddInput on a handle whose input is already mapped is refused
+				// with "already mapped" before the edge is tried)
+				rep.Count("late_workflow_declarations_reported_with_ErrGraphCompiled", 1)
+			}
 		}
 		// Compile does not change what was built: as long as nothing but Compile calls happened, a Compile
 		// of the top-level builder with the options of its first Compile, and the standalone Compile of a
